@@ -195,20 +195,90 @@ fn one_scenario(run: &Run, case: u64) {
     run.sample(|| json!({"resume_case": case, "scenario": sc.desc, "trace_len": n}));
 }
 
+/// Clause 1 across an interruption: the tree has not changed since the last complete version, a
+/// backup of it is killed at every point, and the next backup must still write nothing and
+/// record the addresses of the last complete version.
+fn one_unchanged_scenario(run: &Run, case: u64) {
+    let mut rng = Rng::for_case(run.seed, case, 23);
+    let opts = cs::Opts { hunk: *rng.pick(&[2usize, 3, 100_000]), block: *rng.pick(&[16usize, 64]), cap: *rng.pick(&[10u64, 40]) };
+    let mut p = GenParams::small(opts.block, opts.cap);
+    p.target_entries = 8 + rng.below(6) as usize;
+    p.max_plain_size = 300;
+    p.hostile_mtimes = false;
+    p.hostile_modes = false;
+    let mut w = World::new("c14u", &mut rng, p, run.seed ^ (case << 5));
+    let r = w.backup(opts);
+    assert!(r.backup.as_ref().unwrap().ok());
+    w.mutate(&mut rng, 3);
+    let r = w.backup(opts);
+    assert!(r.backup.as_ref().unwrap().ok());
+    let last = r.new_band.unwrap();
+    let want = addrs_by_path(&w.raw(false), last);
+    let trace = w.measure_trace(opts);
+    run.count("unchanged_resume_scenarios", 1);
+    let only = run.replay.as_ref().and_then(|r| r.get("k")).and_then(|k| k.as_u64()).map(|k| k as usize);
+    for k in 0..=trace.len() {
+        if only.is_some() && only != Some(k) {
+            continue;
+        }
+        if run.out_of_time() {
+            run.count("crash_points_skipped_by_time_budget", 1);
+            continue;
+        }
+        let arch = w.sc.fresh("u");
+        fmt06::copy_dir(&w.arch, &arch);
+        let ic = Icept::new(&arch, Mode::CrashAt { k, torn: false }, 0);
+        let _ = cs::backup(ic.transport(1), &w.src, opts, &[], None);
+        let at = ic.frozen_at().map(|e| e.brief());
+        let ic2 = Icept::new(&arch, Mode::Log, 0);
+        let out = cs::backup(ic2.transport(1), &w.src, opts, &[], None);
+        run.eval();
+        run.count("unchanged_resume_crash_points", 1);
+        run.nontrivial(fnv(format!("u{case}|{k}").as_bytes()));
+        let replay = json!({"unchanged_resume": true, "case": case, "k": k, "at": at});
+        if let Some(stats) = out.value() {
+            let writes = block_writes(&ic2.log()).len();
+            let raw = fmt06::read_archive(&arch, false);
+            let newest = *raw.bands.keys().max().unwrap();
+            let got = addrs_by_path(&raw, newest);
+            if writes != 0 || stats.written_blocks != 0 {
+                run.violation(
+                    "unchanged-tree-wrote-blocks-after-interruption",
+                    format!("tree unchanged since b{last:04}; a backup of it was killed before op {k} ({at:?}); the next backup issued {writes} block writes (written_blocks={}, unmodified_files={})", stats.written_blocks, stats.unmodified_files),
+                    replay,
+                );
+            } else if got != want {
+                run.violation(
+                    "unchanged-tree-recorded-different-addresses-after-interruption",
+                    format!("killed before op {k} ({at:?})"),
+                    replay,
+                );
+            }
+        } else {
+            run.violation("backup-after-interruption-failed", out.describe(), replay);
+        }
+        crate::scratch::rm(&arch);
+    }
+}
+
 pub fn run(tier: Tier, replay: Option<Value>) -> i32 {
     let run = Run::new("C14", "fault_enumeration", tier, replay.clone());
     let resume_replay = replay.as_ref().and_then(|r| r.get("resume")).is_some();
-    if !resume_replay {
+    if !resume_replay && replay.as_ref().and_then(|r| r.get("unchanged_resume")).is_none() {
         run.par_cases(tier.pick(150, 6000), super::threads(), |c| one_history(&run, c));
     }
-    if replay.is_none() || resume_replay {
+    let unchanged_replay = replay.as_ref().and_then(|r| r.get("unchanged_resume")).is_some();
+    if (replay.is_none() || resume_replay) && !unchanged_replay {
         run.par_cases(tier.pick(16, 400), super::threads(), |c| one_scenario(&run, c));
     }
+    if replay.is_none() || unchanged_replay {
+        run.par_cases(tier.pick(12, 200), super::threads(), |c| one_unchanged_scenario(&run, c));
+    }
     let needs: &[(&str, u64)] = if replay.is_some() { &[] } else {
-        &[("unchanged_tree_backups", 10), ("block_writes_observed", 100), ("resume_crash_points", 100), ("crash_points_with_recorded_file_entries", 20), ("recorded_entries_compared", 50)]
+        &[("unchanged_tree_backups", 10), ("block_writes_observed", 100), ("resume_crash_points", 100), ("crash_points_with_recorded_file_entries", 20), ("recorded_entries_compared", 50), ("unchanged_resume_crash_points", 100)]
     };
     run.finish(
-        "clause 1: in histories, a second backup of an untouched tree (same or different options) must issue zero block writes, report written_blocks == 0 and record identical addresses for every file (independent decode); clause 2: in every backup of every history each block write is issued only for a name whose file is absent or zero-length, and at most once (attempts are counted, from the interceptor log with pre-states); clause 3: for EVERY crash point k of the C03 scenarios' backup trace, the run is killed before k and then resumed with the same options: no block file left non-empty by the interrupted run is written again, every file entry recorded in the interrupted run's hunks reappears with identical addresses, and unmodified_files >= their number. Distinct = histories with an unchanged-tree pair / (scenario, k) with recorded entries.",
+        "clause 1: in histories, a second backup of an untouched tree (same or different options) must issue zero block writes, report written_blocks == 0 and record identical addresses for every file (independent decode); clause 2: in every backup of every history each block write is issued only for a name whose file is absent or zero-length, and at most once (attempts are counted, from the interceptor log with pre-states); clause 3: for EVERY crash point k of the C03 scenarios' backup trace, the run is killed before k and then resumed with the same options: no block file left non-empty by the interrupted run is written again, every file entry recorded in the interrupted run's hunks reappears with identical addresses, and unmodified_files >= their number; and for trees that have not changed since the last complete version, a backup killed at EVERY point followed by another backup must still write no block and record that version's addresses. Distinct = histories with an unchanged-tree pair / (scenario, k) with recorded entries.",
         &["kill = no later storage effect", "E2 reader trusted"],
         Some(true),
         needs,
